@@ -10,6 +10,7 @@ import (
 	"net"
 	"os"
 	"path/filepath"
+	"runtime"
 	"syscall"
 	"testing"
 
@@ -18,23 +19,23 @@ import (
 
 type vh19Ent struct {
 	Name interface{} `json:"name"`
-	Off  uint64    `json:"off"`
-	QID  [3]uint64 `json:"qid"`
-	Type uint8     `json:"type"`
+	Off  uint64      `json:"off"`
+	QID  [3]uint64   `json:"qid"`
+	Type uint8       `json:"type"`
 }
 
 type vh19Pages struct {
-	Kind   string      `json:"kind"`
-	FS     int         `json:"fs"`
-	Remote bool        `json:"remote"`
-	MSize  uint32      `json:"msize"`
-	Count  uint32      `json:"count"`
+	Kind   string        `json:"kind"`
+	FS     int           `json:"fs"`
+	Remote bool          `json:"remote"`
+	MSize  uint32        `json:"msize"`
+	Count  uint32        `json:"count"`
 	Names  []interface{} `json:"names"`
-	WalkQ  [][3]uint64 `json:"walkq"`
-	GetQ   [][3]uint64 `json:"getq"`
-	Pages  [][]vh19Ent `json:"pages"`
-	Hit    bool        `json:"hit"`
-	Err    string      `json:"err,omitempty"`
+	WalkQ  [][3]uint64   `json:"walkq"`
+	GetQ   [][3]uint64   `json:"getq"`
+	Pages  [][]vh19Ent   `json:"pages"`
+	Hit    bool          `json:"hit"`
+	Err    string        `json:"err,omitempty"`
 }
 
 func vh19Q(q p9.QID) [3]uint64 { return [3]uint64{uint64(q.Type), uint64(q.Version), q.Path} }
@@ -171,6 +172,17 @@ func vh19Remote(t *testing.T, a p9.Attacher, msize uint32) (p9.File, func()) {
 
 // vh19Observe lists dir (File root = the directory itself) and records Walk/GetAttr QIDs.
 func vh19Observe(t *testing.T, out *vhfsOut, fs int, root p9.File, names []string, remote bool, msize, count uint32) {
+	// The real client arms a finalizer on every clientFile (it clunks the fid): a File that is dropped
+	// could be clunked by the GC in the middle of the listing.  Everything obtained here stays referenced
+	// until the observation is complete and is then closed explicitly.
+	var keep []p9.File
+	defer func() {
+		for _, f := range keep {
+			f.Close()
+		}
+		runtime.KeepAlive(keep)
+		runtime.KeepAlive(root)
+	}()
 	o := vh19Pages{Kind: "pages", FS: fs, Remote: remote, MSize: msize, Count: count}
 	_, d, err := root.Walk(nil)
 	if err != nil {
@@ -184,6 +196,7 @@ func vh19Observe(t *testing.T, out *vhfsOut, fs int, root p9.File, names []strin
 		o.Err = err.Error()
 	}
 	d.Close()
+	runtime.KeepAlive(d)
 	for _, n := range names {
 		o.Names = append(o.Names, vhfsName(n))
 	}
@@ -193,6 +206,9 @@ func vh19Observe(t *testing.T, out *vhfsOut, fs int, root p9.File, names []strin
 			break
 		}
 		qs, f, err := root.Walk([]string{n})
+		if f != nil {
+			keep = append(keep, f)
+		}
 		if err != nil || len(qs) != 1 {
 			o.Err = fmt.Sprintf("walk %q: %v %v", n, qs, err)
 			o.WalkQ, o.GetQ = nil, nil
@@ -204,7 +220,6 @@ func vh19Observe(t *testing.T, out *vhfsOut, fs int, root p9.File, names []strin
 			o.WalkQ, o.GetQ = nil, nil
 			break
 		}
-		f.Close()
 		o.WalkQ = append(o.WalkQ, vh19Q(qs[0]))
 		o.GetQ = append(o.GetQ, vh19Q(g))
 	}
@@ -266,6 +281,7 @@ func TestVerifC19Local(t *testing.T) {
 			for _, cnt := range cs {
 				root, closefn := vh19Remote(t, Attacher(dir), ms)
 				vh19Observe(t, out, 0, root, names, true, ms, cnt)
+				root.Close()
 				closefn()
 			}
 		}
